@@ -18,6 +18,8 @@ var rules = map[string]ruleFn{
 	"C10": ruleC10,
 	"C11": ruleC11,
 	"C12": ruleC12,
+	"C13": ruleC13,
+	"C20": ruleC20,
 }
 
 func verifDir() string {
